@@ -313,7 +313,7 @@ def isR(R, tol=100):
     :seealso: isrot2, isrot
     """
     return np.linalg.norm(R@R.T - np.eye(R.shape[0])) < tol * _eps \
-        and np.linalg.det(R@R.T) > 0
+        and np.linalg.det(R) > 0
 
 
 def isskew(S, tol=10):
